@@ -7,7 +7,7 @@ package forwarder
 // harness, which plays client and target and decides the order of events.
 //
 //vf:assume C03-interleave: after the CONNECT is answered, each endpoint sends one chunk of 1..2 symbolic bytes and then shuts down its sending side; the order of these four events is any interleaving that keeps each endpoint's own order (6 orders, a solver-visible choice); after every event the harness waits until its effect has reached the other endpoint, so the same order is enforced on the real goroutines in the native replay
-//vf:assume C03-interleave: the proxy's goroutines are scheduled cooperatively (8.8): within one event the two copiers do not preempt each other; the forced close after the grace period, real sockets and SOCKS5/TLS upstreams are outside
+//vf:assume C03-interleave: the proxy's goroutines are scheduled cooperatively (8.8): within one event the two copiers do not preempt each other; the forced close after the grace period, real sockets are outside
 
 import (
 	"bytes"
